@@ -252,6 +252,8 @@ class Rule(MethodMeek):
             if C.hopeful():
                 low_vote = V.min([c.vote for c in C.hopeful()])
                 low_candidates = [c for c in C.hopeful() if (low_vote + E.surplus) >= c.vote]
+                if not low_candidates:  # total surplus rounded below zero: nobody is within it of the lowest vote
+                    low_candidates = [c for c in C.hopeful() if c.vote == low_vote]
                 low_candidate = breakTie(low_candidates)
                 if iterationStatus == 'omega':
                     low_candidate.defeat(msg='Defeat (surplus %s < omega)' % E.surplus)
